@@ -94,11 +94,16 @@ Ltac pend_open :=
              | Nat.eq_dec _ _ => fail
              | _ => destruct x eqn:?
              end; try discriminate
+         | |- context [match ?x with _ => _ end] =>
+             lazymatch x with
+             | Nat.eq_dec _ _ => fail
+             | _ => destruct x eqn:?
+             end
          end;
   norm; fields.
 
 Ltac pend_freed := left; fields; upd_split; congruence.
-Ltac pend_sw := right; split; [do 2 eexists; fields; split; [reflexivity|congruence]|].
+Ltac pend_sw := right; split; [do 2 eexists; fields; split; [first [eassumption|reflexivity]|congruence]|].
 
 Lemma pending_step s e s' c : Inv s -> step s e s' -> pending s c -> pending s' c.
 Proof.
@@ -120,13 +125,15 @@ Proof.
       all: try (pend_sw; left; fields; rewrite ?in_app_iff; auto; fail).
       all: fields.
       all: try match goal with
-               | H : zombies s = _ :: _ |- _ => rewrite H in Hin; destruct Hin as [->|Hin]
-               | H : zombies s = [] |- _ => rewrite H in Hin; destruct Hin
+               | Hin : In _ (_ :: _) |- _ => destruct Hin as [->|Hin]
+               | H : zombies _ = _ :: _, Hin : In _ (zombies _) |- _ => rewrite H in Hin; destruct Hin as [->|Hin]
+               | H : zombies _ = [], Hin : In _ (zombies _) |- _ => rewrite H in Hin; destruct Hin
                end.
       all: try (pend_sw; first [left; assumption | right; do 2 eexists; reflexivity]; fail).
       all: try (pend_sw; left; assumption).
       all: try match goal with
-               | |- context [remove Nat.eq_dec ?c' (zombies s)] =>
+               | Hin : In ?c (zombies _) |- context [remove Nat.eq_dec ?c' (zombies _)] =>
+                   let Hin' := fresh "Hin'" in
                    destruct (in_remove_or c c' _ Hin) as [->|Hin'];
                    [left; fields; rewrite upd_same; reflexivity | pend_sw; left; exact Hin']
                end.
@@ -136,7 +143,7 @@ Proof.
       destruct (iD2 s HI _ _ _ _ Hc) as (oc & kc & Htsc).
       destruct e; open_step Hs; use_busy; pend_open; try congruence;
         try (exfalso; eauto; congruence).
-      all: try (pend_sw; right; do 2 eexists; eassumption).
+      all: try (pend_sw; right; do 2 eexists; first [eassumption|reflexivity]; fail).
       all: try (left; fields; upd_split; congruence).
 Qed.
 
@@ -157,4 +164,25 @@ Proof.
   destruct (pending_steps _ _ _ Hr Hs c Hp) as [Hf|[(t0 & ph & Hr0 & Hph) _]]; auto.
   exfalso. destruct Hend as [E|[t' E]]; rewrite E in Hr0; [discriminate|].
   inversion Hr0; subst. congruence.
+Qed.
+
+(* executable fine-grained runner, for the Examples of C36/Props.v *)
+Fixpoint frun (s : state) (es : list event) : option state :=
+  match es with
+  | [] => Some s
+  | e :: rest => match step_fn s e with Some s1 => frun s1 rest | None => None end
+  end.
+
+Lemma frun_steps : forall es s s', frun s es = Some s' -> steps s es s'.
+Proof.
+  induction es as [|e es IH]; intros s s' H; cbn [frun] in H.
+  - inversion H; subst. constructor.
+  - destruct (step_fn s e) as [s1|] eqn:E; [|discriminate]. econstructor; [exact E|]. apply IH; auto.
+Qed.
+
+Lemma frun_reach : forall es s s', reach s -> frun s es = Some s' -> reach s'.
+Proof.
+  induction es as [|e es IH]; intros s s' Hr H; cbn [frun] in H.
+  - inversion H; subst; auto.
+  - destruct (step_fn s e) as [s1|] eqn:E; [|discriminate]. eapply IH; [|eauto]. eapply r_step; eauto.
 Qed.
